@@ -513,6 +513,16 @@ def client_script(rng, cid, cfg, mods):
         items.append(("line", "U " + field(rng, "user", 10) + " :" + real))
     if rng.random() < 0.6:
         items.append(("line", "P :" + rng.choice(PASSWORDS)))
+    smuggle = None
+    if rng.random() < 0.05:
+        # a long text that, read from the offset where a fixed-size line buffer would end (512 or 1024
+        # bytes, give or take the blanks in front), looks like an announcement of a client the server
+        # never announced (seeded change C01-7 cut lines at 511 bytes and parsed the rest as a line)
+        size = rng.choice([512, 512, 1024, 256])
+        head = "%d P :+x acct " % cid
+        text = "P :+x acct " + "p" * (size - len(head) - 6) + " " * 12 + "77 C 10.9.9.9 4077 0::1 6667"
+        items.append(("line", text))
+        smuggle = ("rawline", "77 H")
     if rng.random() < 0.15:
         items.append(("line", "P :" + rng.choice(PASSWORDS)))
     if rng.random() < 0.15:
@@ -552,6 +562,8 @@ def client_script(rng, cid, cfg, mods):
         ev.insert(rng.randint(1, len(ev)), ("C", rand_addr(rng), "99"))
     if rng.random() < 0.3:
         ev.append(("line", "H"))
+    if smuggle:
+        ev.append(smuggle)
     return ev
 
 
@@ -634,6 +646,8 @@ def render_schedule(rng, scripts, chunks=False):
                 ops.append("in " + hx(raw))
         elif e[0] == "timeout":
             ops.append("timeout %d" % cid)
+        elif e[0] == "rawline":
+            ops.append(inl(e[1]))
         elif e[0] == "fill":
             # e[1] other clients come and go (one burst from the server): the serial counter moves on
             serial += e[1]
